@@ -242,6 +242,9 @@ def tev(t, ctx):
         if kind == 'FloatToFloat':
             return a
         raise Uneval('cast ' + str(kind))
+    if k == 'call' and t[1] and t[1] in env.get('__fn__', ()):
+        # a function the caller gives a mathematical meaning (the true Gamma for a recursive call of `gamma`)
+        return env['__fn__'][t[1]](*[tev(x, ctx) for x in t[2]])
     if k == 'call' and t[1] and is_f64_method(t[1]):
         n = f64_method_name(t[1])
         a = [tev(x, ctx) for x in t[2]]
@@ -269,6 +272,10 @@ def tev(t, ctx):
                 return min(x, float(a[1]))
             if n == 'powi':
                 return x ** int(a[1])
+            if n == 'powf':
+                return x ** float(a[1]) if x >= 0 or float(a[1]) == int(a[1]) else float('nan')
+            if n in ('sin', 'cos', 'tan', 'tanh', 'sinh', 'cosh', 'atan', 'log10', 'log2', 'ln_1p', 'exp_m1'):
+                return {'ln_1p': math.log1p, 'exp_m1': math.expm1}.get(n, getattr(math, n, None))(x)
             if n == 'is_nan':
                 return x != x
             if n == 'is_finite':
